@@ -211,6 +211,7 @@ def run(pid, tier):
         'exact regimes only: BINV (n*min(p,1-p) < 10, dyadic p), HIN (N <= 16 histograms, N <= 30 breakpoint tickets), Geometric/StandardGeometric structure, '
         'Zipf and Zeta in f32 (exact law over the 2^24 x 2^24 lattice of proposal and acceptance word at the table\'s parameter points, k <= 24 and the tail, tolerance 2^-20 + 2^-14 p); '
         'Poisson with lambda < 12 (Knuth) and Binomial\'s Poisson limit: P(X = 0) = exp(-lambda) exactly (the one-word returns are a prefix of the word range; bisection with witnesses, f64) and P(X = 0), P(X = 1) over the 2^48 tickets in f32; the rest of those laws is not decided; '
+        'BTPE for huge n: at the region-2 anchors of BtpeTable.BTabH (n = 2^40 and 2^60 with n p = 1024; thorough also 2^33, 2^50, 2^53, 2^62, 10^12) the proposal is the table\'s y - m and the accepting second words a prefix of the same documented length (2^-28), on both sides of |y - m| = 20 where the code changes from the pmf recursion to the squeeze and the Stirling-series test',
         'BTPE is decided POINTWISE in its two main regions: at the anchors of spec/BtpeTable.tla (6 parameter points incl. a flipped one and three with the squeeze / Stirling path) the proposal of a region-2 first word is the table\'s y and '
         'the accepting second words are a prefix of relative length (f(y)/f(m) - 1 + |x - x_m|/p1)/c with f the binomial pmf itself (2^-28), the triangle map of region 1 is exact (2^-44), and in the exponential tails (regions 3, 4) the second words returning y after an anchor\'s first word form the interval [exp(lambda (y - x_l)), min(exp(lambda (y+1-x_l)), f(y)/f(m)/((u-p2) lambda))) resp. its mirror image (2^-28); everything between anchors is NOT decided',
         'H2PE is decided POINTWISE in its central region: at the anchors of spec/H2peTable.tla (8 parameter points incl. all reductions K <-> N-K, n <-> N-n and both evaluation paths) the value returned for a region-1 first word is the table\'s and '
